@@ -65,6 +65,8 @@ class Scenario:
             more += ["-k", str(fl["keep_going"])]
         if fl.get("multiple"):
             more += ["-m"]
+        if fl.get("info_export"):
+            more += ["--info-export", fl["info_export"]]
         pre = ["-v"] * fl.get("verbose", 0)
         args = inv.get("args", {})
         if inv.get("subcommand") == "clean":
